@@ -76,7 +76,7 @@ def confirm(prop, outdir, n, name, inplace=None):
             meta = json.load(open(mp))
         except Exception as e:  # noqa
             meta = {'agent_meta_unreadable': str(e)}
-    meta = {'property': prop, 'breaks': meta.get('summary'), 'needs': meta.get('needs'), 'origin': 'sub-agent given only the property text and a scratch worktree',
+    meta = {'property': prop, 'breaks': meta.get('summary') or meta.get('breaks'), 'needs': meta.get('needs'), 'origin': 'sub-agent given only the property text and a scratch worktree',
             'agent_ran': meta.get('ran'),
             'confirmed_by_me': {'base_commit': subprocess.run(['git', '-C', '/repo', 'rev-parse', '--short', 'HEAD'], capture_output=True, text=True).stdout.strip(),
                                 'demo_on_clean_tree_rc': res['demo_clean'][0], 'suite_with_patch_rc': res['suite_patched'][0],
